@@ -255,6 +255,40 @@ def run(ctx, config):
                            "%s(%s) writes into the chain (%s) but no immutability test of %s dominates the call" % (hname, show(arg), what, show(arg)))
     rules.append(r2)
 
+    # ------------------------------------------------ (a2) reference-holding fields: one reference taken per pointer stored, one dropped per release
+    r1b = Rule("C15-refs", "K1", "every pointer stored into a reference-holding chain field takes exactly one reference, tied to the store; the chain's release drops exactly one", floor=6)
+    HOLD = {
+        "evbuffer_multicast_parent.source": ("call", "evbuffer_incref_", "evbuffer_decref_and_unlock_"),
+        "evbuffer_multicast_parent.parent": ("call", "evbuffer_chain_incref", "evbuffer_chain_free"),
+        "evbuffer_chain_file_segment.segment": ("incr", "evbuffer_file_segment.refcnt", "evbuffer_file_segment_free"),
+    }
+    relf = P.fn("evbuffer_chain_free")
+    for fld, (kind, acq, rel) in HOLD.items():
+        stores = [(f, el, rhs) for f in M.fns for el, lhs, op, rhs in f.stores() if is_e(strip(lhs), "fld") and strip(lhs)[2] == fld and op == "="]
+        if not stores:
+            r1b.brk("no store into %s found" % fld)
+        for f, el, rhs in stores:
+            v = strip(rhs)
+            if is_e(v, "int") and v[1] == 0:
+                continue
+            if kind == "call":
+                acqs = [x for x in f.calls(acq) if eq(strip(x.e[2][0]), v)]
+            else:
+                acqs = [x for x, lhs2, op2, rhs2 in f.stores() if op2 == "++" and is_e(strip(lhs2), "fld") and strip(lhs2)[2] == acq and eq(strip(strip(lhs2)[1]), v)]
+            tied = [x for x in acqs if f.tied(x, el)]
+            r1b.inst((fld, f.name, el.n), {"fn": f.name, "site": el.where(), "store": show(el.e)[:60], "reference_taken_at": [x.where() for x in tied],
+                                          "other_acquires": [x.where() for x in acqs if x not in tied]})
+            if len(tied) != 1:
+                r1b.bad("K1:%s:%s:reference-not-tied-to-store" % (f.name, fld), el.where(), f.name,
+                        "%s is stored into %s %s a matching reference being taken with it (%d tied, %d elsewhere): the chain's release will drop one "
+                        "reference per chain, so the counts drift" % (show(v), fld, "without" if not tied else "with more than", len(tied), len(acqs) - len(tied)))
+        rels = [x for x in relf.calls(rel) if is_e(strip(x.e[2][0]), "fld") and strip(x.e[2][0])[2] == fld]
+        r1b.inst((fld, "release"), {"field": fld, "released_in_evbuffer_chain_free": [x.where() for x in rels]})
+        if len(rels) != 1:
+            r1b.bad("K1:evbuffer_chain_free:%s:release-count" % fld, "%s:%d" % (relf.file, relf.line), relf.name,
+                    "the reference held in %s is released %d times when its chain is freed (expected once)" % (fld, len(rels)))
+    rules.append(r1b)
+
     # ------------------------------------------------ (c) dangling owner fields
     r3 = Rule("C15-dangling", "K11", "an owning chain pointer field released while its evbuffer stays live is overwritten before any use", floor=3)
     OWN = ("evbuffer.first",)
